@@ -20,9 +20,10 @@ import (
 // the exit status of a check, which is decided by the real tree alone.
 
 type catEdit struct {
-	File string `json:"file"`
-	Old  string `json:"old"`
-	New  string `json:"new"`
+	File   string `json:"file"`
+	Old    string `json:"old"`
+	New    string `json:"new"`
+	Create bool   `json:"create"`
 }
 type catEntry struct {
 	ID       string    `json:"id"`
@@ -30,6 +31,7 @@ type catEntry struct {
 	Expected string    `json:"expected_rule"`
 	Suite    string    `json:"suite"`
 	Edits    []catEdit `json:"edits"`
+	Overlay  string    `json:"overlay_file"`
 	Benign   bool      `json:"-"`
 }
 
@@ -56,17 +58,38 @@ func loadCatalogue() []catEntry {
 	read("seed_mutants.json", "mutants", false)
 	read("benign_variants.json", "variants", true)
 	read("agent_mutants.json", "mutants", false)
+	read("base_mutants.json", "mutants", false)
 	return out
 }
 
 func overlayFor(dir string, e catEntry) (map[string][]byte, string) {
 	files := map[string]string{}
+	if e.Overlay != "" {
+		// a whole-file overlay over the repository (changes written against a refactored base)
+		b, err := os.ReadFile(e.Overlay)
+		if err != nil {
+			return nil, "stale: cannot read " + e.Overlay
+		}
+		var m map[string]string
+		if json.Unmarshal(b, &m) != nil {
+			return nil, "stale: bad overlay file " + e.Overlay
+		}
+		out := map[string][]byte{}
+		for k, v := range m {
+			out[filepath.Join(dir, filepath.Base(k))] = []byte(v)
+		}
+		return out, ""
+	}
 	for _, ed := range e.Edits {
 		path := filepath.Join(dir, ed.File)
 		src, ok := files[path]
 		if !ok {
 			b, err := os.ReadFile(path)
 			if err != nil {
+				if ed.Create || ed.Old == "" {
+					files[path] = ed.New // a file the change adds to the package
+					continue
+				}
 				return nil, "cannot read " + path
 			}
 			src = string(b)
